@@ -247,7 +247,13 @@ func (l *listUsersQuery) ListUsers(
 	doneWithFoundUsersCh := make(chan struct{}, 1)
 	go func() {
 		for foundUser := range foundUsersCh {
-			foundUsersUnique[tuple.UserProtoToString(foundUser.user)] = foundUser
+			key := tuple.UserProtoToString(foundUser.user)
+			// The stream is a union of everything found: a user reached through one path must not be
+			// dropped because another path (e.g. through an exclusion) reports no relationship for it.
+			if existing, ok := foundUsersUnique[key]; ok && existing.relationshipStatus == HasRelationship && foundUser.relationshipStatus == NoRelationship {
+				continue
+			}
+			foundUsersUnique[key] = foundUser
 
 			if l.maxResults > 0 {
 				if uint32(len(foundUsersUnique)) >= l.maxResults {
